@@ -29,7 +29,7 @@ META = dict(
         'searches; histories: the TBRMMData object was used before by '
         'another search object (longer window) or is shared with a second '
         'search object called in between',
-        thorough='adds P3 P4 P8 P10, seeded eligibility tables, all single '
+        thorough='adds P3 P4 P8, seeded eligibility tables, all single '
         'constraints x npm'),
     outside='panels concrete; series compared with rtol 1e-9 (summation '
     'order); designs whose score contains NaN compared NaN==NaN',
@@ -83,7 +83,7 @@ def jobs(tier, seed):
   if tier == 'thorough':
     rnd = random.Random(seed)
     for m in ['exhaustive', 'greedy']:
-      for panel in ['P3', 'P4', 'P8', 'P10']:
+      for panel in ['P3', 'P4', 'P8']:
         n = dict(P3=4, P4=3, P8=4, P10=5)[panel]
         els = [None] + [dict(zip('01234'[:n], (rnd.choice(RT) for _ in range(
             n)))) for _ in range(3)]
